@@ -171,6 +171,43 @@ func c14Pathological() []*load.Case {
 		add("include-revision-"+pin.id, hdr("a")+"include s { revision-date "+pin.ab+"; } }", map[string]string{
 			"s": "submodule s { belongs-to a { prefix a; } include s { revision-date " + pin.ab + "; } }"})
 	}
+	// a resource that holds a module of another name which imports the name it was opened under
+	add("wrong-name-imports-back", hdr("a")+"import b { prefix b; } leaf x { type b:t; } }", map[string]string{
+		"b": hdr("c") + "import b { prefix b; } typedef t { type string; } }"})
+	add("wrong-name-imports-back-by-name", "", map[string]string{
+		"a": hdr("a") + "import b { prefix b; } leaf x { type b:t; } }",
+		"b": hdr("c") + "import b { prefix b; } typedef t { type string; } }"})
+	add("wrong-name-plain", hdr("a")+"import b { prefix b; } leaf x { type b:t; } }", map[string]string{"b": hdr("c") + "typedef t { type string; } }"})
+	add("wrong-name-submodule", hdr("a")+"include s; }", map[string]string{"s": "submodule q { belongs-to a { prefix a; } include s; leaf l { type string; } }"})
+	// several submodules importing one module: the module itself, a cycle's root, a plain third module
+	sub := func(n, imp, pfx, use string) string {
+		return "submodule " + n + " { belongs-to a { prefix a; } import " + imp + " { prefix " + pfx + "; } " + use + " }"
+	}
+	add("self-import-from-two-submodules", hdr("a")+"include s1; include s2; typedef t { type string; } grouping g { leaf gl { type string; } } identity i; }", map[string]string{
+		"s1": sub("s1", "a", "p", "leaf x { type p:t; } container c1 { uses p:g; }"),
+		"s2": sub("s2", "a", "p", "leaf y { type p:t; } container c2 { uses p:g; } leaf z { type identityref { base p:i; } }")})
+	add("mutual-import-from-two-submodules", hdr("a")+"import b { prefix b; } typedef t { type string; } }", map[string]string{
+		"a":  hdr("a") + "import b { prefix b; } typedef t { type string; } grouping g { leaf gl { type string; } } }",
+		"b":  hdr("b") + "include s1; include s2; }",
+		"s1": "submodule s1 { belongs-to b { prefix b; } import a { prefix p; } leaf x { type p:t; } }",
+		"s2": "submodule s2 { belongs-to b { prefix b; } import a { prefix p; } leaf y { type p:t; } container c { uses p:g; } }"})
+	for _, pfx := range []string{"m", "q"} {
+		add("module-and-two-submodules-import-one-"+pfx, hdr("a")+"import m { prefix "+pfx+"; } include s1; include s2; leaf w { type "+pfx+":t; } }", map[string]string{
+			"m":  hdr("m") + "typedef t { type string; } grouping g { leaf gl { type string; } } identity i; }",
+			"s1": sub("s1", "m", "p", "leaf x { type p:t; }"),
+			"s2": sub("s2", "m", "p", "leaf y { type p:t; } container c { uses p:g; } leaf z { type identityref { base p:i; } }")})
+		add("three-submodules-import-one-"+pfx, hdr("a")+"include s1; include s2; include s3; }", map[string]string{
+			"m":  hdr("m") + "typedef t { type string; } grouping g { leaf gl { type string; } } }",
+			"s1": sub("s1", "m", pfx, "leaf x { type "+pfx+":t; }"),
+			"s2": sub("s2", "m", "p2", "leaf y { type p2:t; }"),
+			"s3": sub("s3", "m", pfx, "container c { uses "+pfx+":g; }")})
+	}
+	// prefixes that name nothing loadable
+	add("stray-belongs-to-prefix-used", hdr("a")+"belongs-to y { prefix p; } leaf x { type p:t; } }", nil)
+	add("stray-belongs-to-prefix-used-in-uses", hdr("a")+"belongs-to y { prefix p; } uses p:g; }", nil)
+	add("stray-belongs-to-prefix-used-in-base", hdr("a")+"belongs-to y { prefix p; } identity i { base p:j; } leaf l { type identityref { base p:j; } } }", nil)
+	add("submodule-prefix-of-missing-parent", "submodule s { belongs-to a { prefix a; } leaf x { type a:t; } uses a:g; }", nil)
+	add("import-prefix-of-failed-import", hdr("a")+"import nope { prefix n; } leaf x { type n:t; } }", nil)
 	add("self-include", hdr("a")+"include a; }", map[string]string{"a": hdr("a") + "include a; }"})
 	add("include-cycle", hdr("a")+"include s1; }", map[string]string{
 		"s1": "submodule s1 { belongs-to a { prefix a; } include s2; }",
@@ -328,6 +365,9 @@ func c14Cases(r *kit.Rng, tier string) ([]*load.Case, map[string]string) {
 	for _, c := range c14Matrix(thorough) {
 		add(c, "statement-placement-matrix")
 	}
+	for _, c := range c14Targets() {
+		add(c, "path-target-matrix")
+	}
 	// small escape- and comment-rich texts: every prefix and every token edit, in both tiers
 	for si, text := range c14Small {
 		id := fmt.Sprintf("small%d", si)
@@ -442,8 +482,13 @@ func c14OpenerCases(r *kit.Rng, base *load.Case, opens []string, tier string) []
 			mk("dup-chunk", at, "")
 		}
 		mk("serve", 0, base.MainName) // the importer itself: self import
-		if len(others) > 0 {
-			mk("serve", 0, others[r.Intn(len(others))])
+		// every other resource of the set in place of the one asked for (a module
+		// where a submodule is expected, a module of another name, one that itself
+		// imports the name being opened)
+		for i, o := range others {
+			if o != name && (len(others) <= 8 || tier == "thorough" || r.Chance(8, len(others)) || i == 0) {
+				mk("serve", 0, o)
+			}
 		}
 	}
 	for _, mode := range []string{"ok", "torn", "write-fail", "read-fail"} {
